@@ -185,6 +185,9 @@ def _strategy(draw):
         build += ["[ molecule ]", f"{name} {lo} {hi}"]
         lp = draw(st.sampled_from([0.5, 1.0, 2.0]))
         build += ["[ persistence_length ]", f"WCM {lp!r} 0 {nres - 1}"]
+        if draw(st.booleans()):
+            # a box with one short edge (shorter than some of the sampled end-to-end distances)
+            opts["box"] = [round(max(2.6, 0.3 * edge), 1), round(edge + 2.0, 1), round(edge + 2.0, 1)]
         restraints.append({"kind": "persist", "mol": name, "lo": lo, "hi": hi, "a": 0, "b": nres - 1, "lp": lp})
     else:
         # every ring-shaped molecule type of the system may be declared cyclic (types with other residue
@@ -334,7 +337,8 @@ def check(spec, ctx):
                         if s < avg_step - 1e-9 or s > contour + 1e-9:
                             raise Violation("persistence:sample_out_of_range", f"sampled end-to-end distance {s} outside [{avg_step}, {contour}]")
                     if k >= len(samples):
-                        continue
+                        raise Violation("persistence:fewer_samples_than_molecules",
+                                        f"{len(samples)} end-to-end distances were sampled for a batch of {len(batch)} molecules")
                     want, tol = float(samples[k]), 0.0
                 if d < want - tol - 1e-6 or d > want + tol + slack + 1e-6:
                     raise Violation(f"distance:{r['kind']}", f"molecule {mi} residues {r['a']},{r['b']} end {d:.4f} nm apart; "
